@@ -272,6 +272,15 @@ impl Sys {
             }
             self.w.settle();
         }
+        self.m.observed_size_refusals = self
+            .w
+            .obs_since(self.mark)
+            .iter()
+            .filter_map(|o| match o {
+                Ob::Done { op, res } if res == "Err:MaximumPacketSizeExceeded" => Some(*op),
+                _ => None,
+            })
+            .collect();
         self.m.settle();
         // the context task ends (and drops the Context) right after run() returned
         if self.auto_exit && self.m.ctx == CtxSt::Returned {
